@@ -327,8 +327,11 @@ class Machine(object):
         # through the reply tag 0xff; a request that names another source
         # (or does not ask for a reply) gets its answer delivered to some
         # core of the machine - the host never sees it.
+        # (and SCP is served on SDP port 0 of a core: a datagram for another
+        # port is handed to whatever application listens there)
         if not req["flags"] & 0x80 or req["src_port"] != 7 or \
-                req["src_cpu"] != 31 or req["tag"] != 0xff:
+                req["src_cpu"] != 31 or req["tag"] != 0xff or \
+                req["dest_port"] != 0:
             self.unroutable_replies += 1
             reply = None
         self.replies[key] = reply
